@@ -9,15 +9,12 @@
    their contracts, stated as premises:
      sqrt_contract : 0 <= x -> sqrt x * sqrt x = x
      sq_contract   : psd P -> sq n P *m (sq n P)^T = P.
-   Circular (Euler) rows and quaternion blocks are modelled (C03_Model) and covered by
-   the correspondence check and the oracle.  Proved about them: the first sigma point for
-   every layout (C03_first_sigma_point_partial, MathComp instance), and at the Coq-reals
-   instance (the four standard real-number axioms) C03_circular_row (one Euler row of the
-   symmetric sigma set behaves as a linear row modulo 2 pi: mean and every offset) and
-   C03_quaternion_block (sum / diff round trip, with the 1e-4 cut-off bound), using C19 and
-   C18.  What remains partial: assembling these row / block facts with the linear-algebra
-   theorems into moment preservation for a whole mixed layout, and the quaternion mean
-   (dominant-eigenvector premise, C18's mean_symmetric_partial). *)
+   Circular (Euler) rows and quaternion blocks: this file proves the first sigma point for every layout
+   (C03_first_sigma_point_partial, MathComp instance, transcendental functions uninterpreted) and, at the
+   Coq-reals instance (the four standard real-number axioms), the per-row / per-block facts C03_circular_row
+   and C03_quaternion_block on top of C19 and C18.  The WHOLE-LAYOUT statements for these layouts (moments
+   preserved, exactness on affine maps for whole mixtures and all overloads, smallness premises explicit) are
+   in Properties_C03_Real.v (theorems C03_euler_... and C03_quat_...), which is part of this check (EXTRA_PROPERTIES). *)
 Require Import ZArith QArith List.
 Require Import BFL.Ops BFL.ListOps BFL.C03_Model.
 From mathcomp Require Import all_ssreflect all_algebra.
@@ -129,10 +126,10 @@ Proof. by move=> HL Hn HLo w cp sc fo; exact: ut_generic_affine_augmented. Qed.
    covariance, whatever the square-root oracle returns: the first sigma point of a
    component is its mean — exactly on linear, quaternion and noise rows, and
    arg(exp(j m_i)) on Euler rows.  PARTIAL for the property's circular / quaternion
-   clauses: that arg(exp(j m)) = m modulo 2 pi (C19), and moment preservation /
-   affine exactness on circular and quaternion rows for spreads within a half turn
-   (needs C19's atan2 facts and C18's exp/log round trip) are not proved here; they
-   are covered by the correspondence check and the oracle. *)
+   clauses in that it says nothing about the other sigma points: moment preservation and
+   affine exactness on circular and quaternion rows for spreads within a half turn are
+   proved over Coq's reals in Properties_C03_Real.v (C03_euler_sigma_moments,
+   C03_euler_affine_exact_small_cov, C03_quat_affine_exact). *)
 Theorem C03_first_sigma_point_partial (L : layout) (c : F) (m : 'cV[F]_(l_dim L)) (P : 'M[F]_(l_dcov L)) x :
   List.nth 0 (sigma_comp (O:=O) L (l_dim L) (l_dcov L) c m P) x =
   \matrix_(i, j) (if euler_row L i then C03_Model.wrap (O:=O) (m i 0) else m i j).
